@@ -532,7 +532,20 @@ package server
 
 // report: a failover is started only with more witnesses than the quorum, and a started failover
 // forgets the witnesses (they referred to the leader that is being replaced)
+// (one reported leader, one election: while the new leader for a reported one is being selected - proposed, committed,
+//  applied - the old (leader, epoch) pair is still current and further reports naming it keep arriving; they must not
+//  add up to a second quorum and a second election, which would depose the leader the first one installs although
+//  nobody reported it. ghost.electing[f]: an election started from f is in flight - shared state under f's lock)
+//@ ghost var electing ghostmap[*failoverStatus]bool
+//@ ghost var othersElecting bool
+//@ lockinv failoverStatus.mu guards electing, ghost.electing serves C07: ghost.electing[self] == self.electing
 //@ func (*failoverStatus).report serves C07
+//@   assumes f != nil
+//@   ghost at entry: ghost.enough := false
+//@   ghost after call Quorum: ghost.othersElecting := ghost.electing[f]
+//@   call Failover requires [one-election-per-reported-leader] !ghost.othersElecting
+//@   ghost before call Unlock#2: ghost.electing[f] := true
+//@   ghost before call Unlock#3: ghost.electing[f] := false
 //@   ghost after call Quorum: ghost.enough := len(f.witnesses) > ret0
 //@   call Failover requires [more-than-quorum] ghost.enough
 //@   ensures [forgotten-after-failover] ghost.enough ==> len(f.witnesses) == 0
